@@ -154,22 +154,53 @@ def survive (r : Req) (es : List Ev) (tok : String) : String × Situation :=
   (tok', (tok.startsWith "default:", bc))
 
 /-- all (token, situation afterwards) pairs the model admits for a request in a situation -/
-def admit (ft bt : Nat) (r : Req) (sit : Situation) : Option (List (String × Situation)) :=
+def admit (ft bt : Nat) (tls piped : Bool) (r : Req) (sit : Situation) : Option (List (String × Situation)) :=
   let closed : Situation := (false, .fresh)
   let one (es : List Ev) (bs : BodySize := .empty) : String × Situation :=
     let tok := outcomeToken (run cfgH1 Stream.init es) r bs
     if r.route == "fltk" then survive r es tok else (tok, closed)
   if r.client == "stallhead" then
     some [one [.timeoutFront true]]
-  else if r.client != "full" then none
+  else if piped && sit.1 then
+    -- WHAT THE CODE DOES (finding `pipelined-request-answered-408`): the bytes of a request that
+    -- arrived in the same read as the previous one travel to the backend glued to that one;
+    -- when the first exchange is over the frontend stream is Idle with nothing to parse, and the
+    -- front timer answers 408
+    some [one [.timeoutFront true]]
+  else if r.client == "http10" || r.client == "junk" then
+    -- the request head does not parse / is malformed
+    some [one [.reqParsed false]]
+  else if !(["full", "cred", "badcred", "pipe", "noread"].contains r.client) then none
   else
-    let routed (c : Cause) := some [one [.reqParsed true, .connect (.err c)]]
+    let cred := r.client == "cred"
+    -- routing outcomes in front of any backend connection: through the model's `routeDecision`
+    let decided (ri : RouteIn) : Option (List (String × Situation)) :=
+      match routeDecision ri with
+      | some c => some [one [.reqParsed true, .connect (.err c)]]
+      | none =>
+        -- forwarded to the always-answering backend of that cluster
+        some [("relayed/open", (true, if sit.1 then sit.2 else .fresh))]
     match r.route with
-    | "unknown" => routed .noCluster
-    | "deny" => routed .unauthorized
-    | "nobackend" => routed .noBackend
-    | "limit" => routed .perIpLimit
-    | "badhost" => some [one [.reqParsed true, .connect (.err .hostParse)], one [.reqParsed false]]
+    | "unknown" => decided { frontFound := false }
+    | "deny" => decided { hasCluster := false }
+    | "limit" => decided { atIpLimit := true }
+    | "sni421" => decided { sniMismatch := true }
+    | "redir301" => decided { legacyHttpsRedirect := true }
+    | "redir302" => decided { redirect := some 302, hasCluster := false }
+    | "redir308" => decided { redirect := some 308, requiredAuth := true, authOk := cred }
+    | "unauth" => decided { unauthorizedPolicy := true }
+    | "auth" => decided { requiredAuth := true, authOk := cred }
+    | "limauth" => decided { requiredAuth := true, authOk := cred, atIpLimit := true }
+    | "nobackend" => some [one [.reqParsed true, .connect (.err .noBackend)]]
+    | "badhost" =>
+      -- over TLS the malformed authority is first of all not covered by the certificate
+      match routeDecision { hostMalformed := true, sniMismatch := tls } with
+      | some c => some [one [.reqParsed true, .connect (.err c)], one [.reqParsed false]]
+      | none => none
+    | "refuse4" =>
+      let attempt : List Ev := [.connect (.linked 1), .backHup]
+      some [one ([.reqParsed true] ++ attempt ++ attempt ++ attempt ++ [.connect (.linked 1)]),
+            one ([.reqParsed true] ++ attempt ++ attempt ++ [.connect (.err .noBackend)])]
     | "refuse" =>
       let attempt : List Ev := [.connect (.linked 1), .backHup]
       some [one ([.reqParsed true] ++ attempt ++ attempt ++ attempt ++ [.connect (.linked 1)]),
@@ -184,6 +215,14 @@ def admit (ft bt : Nat) (r : Req) (sit : Situation) : Option (List (String × Si
           (t, (s.1, if s.2 == .idle then .stalled else s.2)))
       else if r.shape == "garbage" then
         some [one (p ++ [.backParseError])]
+      else if r.client == "noread" then
+        -- the client reads nothing: part of the body is written into the socket buffers, the
+        -- rest stays pending until a timer fires
+        match shapeBs r.shape with
+        | none => none
+        | some bs =>
+          let h := p ++ [.backHead bs (r.conn == "close") false, .frontFlush, .backData]
+          some ((stallAlts ft bt h).map (one · bs))
       else
         match shapeBs r.shape with
         | none => none
@@ -237,13 +276,16 @@ structure DState where
   sits : List Situation := [(false, .fresh)]
   ft : Nat := 1
   bt : Nat := 1
+  tls : Bool := false
+  /-- the previous request was written together with this one (HTTP/1 pipelining) -/
+  piped : Bool := false
 
 def stepLine (st : DState) (line : String) : DState × List String :=
   match words line with
   | "new" :: ws =>
     let m := kvs ws
     let num (k : String) : Nat := ((look m k).bind String.toNat?).getD 1
-    ({ ft := num "ft", bt := num "bt" }, ["ok"])
+    ({ ft := num "ft", bt := num "bt", tls := (look m "tls") == some "1" }, ["ok"])
   | ["esd", a, b, c, d] =>
     match parseBool a, parseBool b, parseBool c, parseBool d with
     | some a, some b, some c, some d => (st, [decisionStr (endStreamDecision a b c d)])
@@ -276,13 +318,13 @@ def stepLine (st : DState) (line : String) : DState × List String :=
     match parseReq (kvs ws) with
     | none => (st, ["bad-op"])
     | some r =>
-      let results := st.sits.map (admit st.ft st.bt r)
+      let results := st.sits.map (admit st.ft st.bt st.tls st.piped r)
       if results.any Option.isNone then (st, ["bad-op"])
       else
         let pairs := (results.filterMap id).flatten
         let toks := dedup (pairs.map (·.1))
         let sits := pairs.foldl (fun acc p => if acc.contains p.2 then acc else acc ++ [p.2]) []
-        ({ st with sits := if sits.isEmpty then [(false, .fresh)] else sits }, ["adm " ++ ",".intercalate toks])
+        ({ st with sits := (if sits.isEmpty then [(false, .fresh)] else sits), piped := r.client == "pipe" }, ["adm " ++ ",".intercalate toks])
   | _ => (st, ["bad-op"])
 
 def main : IO Unit := runDriver stepLine {}
